@@ -405,3 +405,82 @@ def _base_exceptions(rep, cases):
             if e['e'] == 'end' and e['out']['t'] == 'exc' and e['out']['e']['exc'] == 'Base':
                 rep.violation('eval raised a non-Exception BaseException %s: %r' % (e['out']['e']['name'], [cl['src'] for cl in c['calls']]),
                               {'case': engine.slim(c)})
+
+
+def check_C18(tier, seed):
+    """list_names: token-level conformance (lexer layer) + the evaluator never asks the host for an unlisted name."""
+    from . import vmgen
+    quick = tier == 'quick'
+    rep = Report('C18', tier, seed)
+    devs = engine.open_deviations()
+    rep.notes['rule'] = ('lexer: all character strings up to a bound over representative characters + the lexer as a state machine (one '
+                         'action per token rule) - ListNames(text) = names of NAME tokens in order, error at the first illegal character; '
+                         'evaluator: TLC invariant LookedInv (names requested from the host are names of the tree or implicit) on the '
+                         'program spaces of MC_C01 and MC_C10; code: list(list_names(src)) compared with the specification, and for random '
+                         'programs the keys requested from a recording names mapping are validated by TLC against list_names(src)')
+    consts = {'Tier': '"quick"', 'MaxN': '6' if quick else '12'}
+    cfg = engine.mc_cfg('MC_C01.cfg', consts=consts)
+    open(cfg, 'a').write('INVARIANT LookedInv\nINVARIANT LookedNow\n')
+    res = common.run_tlc('MC_C01.tla', cfg=cfg, workers=16, timeout=900)
+    rep.add_tlc(res, 'MC_C01 + LookedInv')
+    if res.rc != 0:
+        rep.machinery.append('MC_C01 + LookedInv: the specification violates %s or TLC failed: %s' % (res.invariant_violated, res.out[-1200:]))
+    rep.exhaustive = True
+    # evaluator side on the real code
+    scns = [vmgen.random_scenario(seed * 31337 + i, ncalls=1) for i in range(1200 if quick else 10000)]
+    for s in scns:
+        s['list_names'] = True
+    cases = [c for c in vmrun.run_scenarios(scns) if 'harness_error' not in c]
+    engine.judge_cases(rep, cases, devs, what='program')
+    # lexer side
+    lp = _lexparse()
+    open_devs = [d for d in devs if d in lp.ALL_DEVIATIONS] + list(lp.IMPL_DETAIL)
+    try:
+        st = lp.check_C18_names(tier, seed, tuple(open_devs))
+        rep.states += int(st.get('states', 0))
+        rep.transitions += int(st.get('transitions', 0)) or int(st.get('states', 0))
+        rep.traces += int(st.get('traces_validated', 0))
+        rep.evaluations += int(st.get('evaluations', 0))
+        rep.distinct |= set('lp%d' % i for i in range(int(st.get('distinct', 0))))
+        rep.samples += list(st.get('samples', []))[:3]
+        rep.notes['lexer_runs'] = st.get('runs', [])[:30]
+        other = {}
+        for m in st.get('mismatches', []):
+            if m.get('explained_by'):
+                continue
+            clause = str(m.get('kind') or m.get('clause'))
+            if clause not in RELEVANT_CLAUSES['C18']:
+                other[clause] = other.get(clause, 0) + 1
+                continue
+            rep.violation('%s: clause %s on %r: specified %s, observed %s' % (m.get('origin'), clause, m.get('input'),
+                                                                         str(m.get('expected'))[:200], str(m.get('observed'))[:200]), m)
+        if other:
+            rep.notes['differences_outside_this_property'] = other
+    except lp.MachineryError as e:
+        rep.machinery.append(str(e)[-2000:])
+    return rep.finish()
+
+
+def check_C07(tier, seed):
+    from . import vmgen
+    quick = tier == 'quick'
+    rep = Report('C07', tier, seed)
+    devs = engine.open_deviations()
+    rep.notes['rule'] = ('the TLA+ specification is the reference semantics; TLC: type-directed generator MC_C07 (Num Str Bool List Dict Fun; '
+                         'every operator, statement form, slice form, deterministic builtin; host ints/Decimals/strings/containers) - generic '
+                         'invariants (ops charged = node evaluations, plain values, scope balance, size); code: every generated program '
+                         'replayed, plus random type-directed programs of arbitrary nesting with multi-line bodies and host names; value, '
+                         'names afterwards, error class and op count of every node validated by TLC')
+    res = engine.model_check(rep, 'MC_C07.tla', 'MC_C07.cfg', consts={'Tier': '"quick"' if quick else '"thorough"'}, timeout=1500,
+                             coverage=not quick)
+    rep.exhaustive = True
+    if not rep.machinery:
+        recs = _emitted(res)
+        rep.notes['generator_left_domain'] = sum(1 for r in recs if r.get('end') == 'unspec')
+        engine.replay_emitted(rep, recs, devs, sample=None if quick else 20000, seed=seed, what='generated program')
+    scns = [vmgen.random_scenario(seed * 1000003 + i) for i in range(2500 if quick else 25000)]
+    cases = [c for c in vmrun.run_scenarios(scns) if 'harness_error' not in c]
+    engine.judge_cases(rep, cases, devs, what='random program')
+    rep.assumptions += ['programs that leave the specified part of Python semantics (binary float arithmetic, int/int division, '
+                        'non-ASCII case mapping, ...) are counted as left-domain and not as validated']
+    return rep.finish()
